@@ -1,18 +1,20 @@
 -------------------------- MODULE MC_SlidingStats --------------------------
 EXTENDS SlidingStats, TLC, Json
 CONSTANTS Ws, Samples, Extra      \* histories are explored up to cnt <= 2W + Extra between resets
-VARIABLES hist, nres     \* nres: resets so far (in the VIEW: a reset object is NOT merged with a fresh one,
+VARIABLES hist, w0, nrsz, nres     \* nres: resets so far (in the VIEW: a reset object is NOT merged with a fresh one,
                          \* so that generated paths continue after a reset - the code may keep hidden state there)
 \* TLC configuration files cannot hold negative literals: sample sets live here
 SamplesMixed == {-9, -5, -1, 0, 3, 4, 7, 8}      \* truncate to -2,-1,0,0,0,1,1,2
 SamplesOdd   == {-9, -7, -3, -1, 1, 3, 5, 9}     \* never an exact multiple of the precision
-mcvars == <<ssvars, hist, nres>>
-View == <<ssvars, nres>>
+mcvars == <<ssvars, hist, w0, nrsz, nres>>
+View == <<ssvars, nres, nrsz>>       \* w0: the window size the object was constructed with; nrsz: reconfigurations so far
 
-Init == (\E w \in Ws : InitWith(w)) /\ hist = <<>> /\ nres = 0
-DoUpdate == \E q \in Samples : cnt < 2 * W + Extra /\ Update(q) /\ hist' = Append(hist, [e |-> "update", q |-> q]) /\ nres' = nres
-DoReset  == cnt > 0 /\ nres < 2 /\ Reset /\ hist' = Append(hist, [e |-> "reset"]) /\ nres' = nres + 1
-Next == DoUpdate \/ DoReset
+Init == (\E w \in Ws : InitWith(w) /\ w0 = w) /\ hist = <<>> /\ nres = 0 /\ nrsz = 0
+DoUpdate == \E q \in Samples : cnt < 2 * W + Extra /\ Update(q) /\ hist' = Append(hist, [e |-> "update", q |-> q]) /\ nres' = nres /\ UNCHANGED <<w0, nrsz>>
+DoReset  == cnt > 0 /\ nres < 2 /\ Reset /\ hist' = Append(hist, [e |-> "reset"]) /\ nres' = nres + 1 /\ UNCHANGED <<w0, nrsz>>
+DoResize == \E w \in Ws : w # W /\ nrsz < 1 /\ Resize(w) /\ hist' = Append(hist, [e |-> "resize", W |-> w])
+                             /\ nrsz' = nrsz + 1 /\ UNCHANGED <<w0, nres>>
+Next == DoUpdate \/ DoReset \/ DoResize
 Spec == Init /\ [][Next]_mcvars
-EmitState == PrintT(ToJson([W |-> W, path |-> hist]))
+EmitState == PrintT(ToJson([W |-> w0, path |-> hist]))
 =============================================================================
